@@ -11,6 +11,7 @@ code -> spec: seeded random requests beyond the constants (<= 5 query fields, <=
 """
 import datetime
 import json
+import math
 import numbers
 import os
 import random
@@ -247,7 +248,19 @@ def describe(q, e, d, got, allowed):
 def _show(out):
     if out['res'] != 'ok':
         return out['res']
-    return str([['/'.join(map(str, c)) for c in r] for r in out['rows']])
+    return str([[_text(c) for c in r] for r in out['rows']]).replace('"', '')
+
+
+def _text(cell):
+    t, s, n = cell
+    if t == 'num':
+        return repr(n / 10)
+    if t in ('str', 'date', 'ts'):
+        try:
+            return ('date ' if t == 'date' else 'ts ' if t == 'ts' else '') + repr(str(concrete(cell)))
+        except AssertionError:
+            pass
+    return f'<{t} {s}>'
 
 
 # ------------------------------------------------------------------------------------------------- TLC configuration
@@ -288,7 +301,7 @@ def main(chk):
     rnd = random.Random(chk.seed)
 
     model_level(chk, tmp)
-    replay_vectors(chk, tmp, rnd)
+    replay_vectors(chk, tmp)
     random_observations(chk, rnd)
     tabular(chk, tmp)
 
@@ -314,11 +327,12 @@ def model_level(chk, tmp):
         chk.tlc('MatchEntryImpl', cfg_entry(os.path.join(tmp, f'aligned-{kinds[0]}.cfg'), 'ImplSpec', kinds, pl, mq, me, 1, 1,
                                             False, 'aligned', False, STRUCTURAL + ['ValuesCast']),
                 require=BUILD + ['ServeImpl'], workers=8)
-    # repeated names: the as-is scan (last one wins) stays inside the allowed choices
+    # repeated names: the scan of _match_entry (last one wins) stays inside the allowed choices
     chk.tlc('MatchEntryImpl', cfg_entry(os.path.join(tmp, 'dup.cfg'), 'ImplSpec', NUMERIC, 3, 2, 3 if chk.quick else 4, 1, 1,
                                         True, 'aligned', False, STRUCTURAL + ['ValuesCast']),
             require=BUILD + ['ServeImpl'], workers=4)
-    # the as-is rule: structurally fine, refuted on ValuesCast (and only there) - the model tells the two rules apart
+    # the as-is rule is refuted on ValuesCast (the structural clauses hold for it: checked by the export runs below) -
+    # the model tells the two rules apart
     res = chk.tlc('MatchEntryImpl', cfg_entry(os.path.join(tmp, 'asis-cast.cfg'), 'ImplSpec', NUMERIC, 3, 2, 3, 1, 1, False,
                                               'asis', False, ['ValuesCast']), expect_ok=False, workers=4)
     chk.selftest('model_refutes_asis_cast_rule', res.violated == 'ValuesCast')
@@ -340,13 +354,13 @@ def classify(chk, vec, got, route, container, flavour):
     return False
 
 
-def replay_vectors(chk, tmp, rnd):
+def replay_vectors(chk, tmp):
     """spec -> code: every exported arrangement through the real reader."""
     # (kinds, names, query fields, entry columns, rows, data variants, repeated names)
     runs = [(NUMERIC, 4, 3, 3, 2, 1, False), (TEMPORAL, 3, 2, 3, 2, 1, False), (NUMERIC, 3, 2, 3, 1, 1, True)]
     if not chk.quick:
         runs = [(NUMERIC, 4, 3, 4, 2, 1, False), (NUMERIC, 5, 2, 4, 1, 1, False), (TEMPORAL, 4, 2, 3, 2, 2, False),
-                (NUMERIC, 3, 2, 4, 1, 1, True)]
+                (NUMERIC, 3, 2, 3, 1, 1, True)]
     total = drift = 0
     stats = {'ok': 0, 'refused': 0, 'illformed': 0}
     first = True
@@ -355,8 +369,10 @@ def replay_vectors(chk, tmp, rnd):
                         dup, 'asis', True, STRUCTURAL + ['Export'])
         res = chk.tlc('MatchEntryImpl', cfg, require=BUILD + ['ServeImpl'], workers=4, timeout=2400)
         vectors = vectors_of(res)
-        if len(vectors) != res.coverage['ServeImpl'][0]:
-            raise tlc.MachineryError(f'{len(vectors)} vectors exported for {res.coverage["ServeImpl"][0]} served states')
+        queries = sum(len(kinds) ** n for n in range(1, mq + 1))
+        entries = sum((pool ** n if dup else math.perm(pool, n)) * len(kinds) ** n for n in range(1, me + 1))
+        if len(vectors) != queries * entries * nvar:  # every served state exactly once (no line lost between TLC workers)
+            raise tlc.MachineryError(f'{len(vectors)} vectors exported for {queries * entries * nvar} arrangements')
         check_roundtrip(vectors)
         plans = [(ROUTES[n % 3], CONTAINERS[(n // 3 + n // 7) % 3], n // 5) for n in range(len(vectors))]
         outcomes = pmap('serve', [(v['q'], v['e'], v['d'], *p) for v, p in zip(vectors, plans)])
@@ -605,7 +621,7 @@ def table_expected(state):
 def tabular(chk, tmp):
     # (rows, columns, longest index list, longest Slicer list, selections in a row, Slicer after at most .. selections)
     shapes = ([(3, 3, 3, 2, 2, 1), (2, 4, 3, 1, 1, 0)] if chk.quick else
-              [(3, 3, 4, 2, 2, 1), (2, 4, 3, 2, 2, 1), (4, 2, 3, 2, 2, 1), (1, 3, 3, 2, 2, 1)])
+              [(3, 3, 4, 2, 2, 0), (2, 4, 3, 2, 2, 1), (4, 2, 3, 2, 2, 1), (1, 3, 3, 2, 2, 1)])
     total = 0
     tested = False
     for nr, nc, maxtake, maxslice, depth, slicedepth in shapes:
